@@ -411,14 +411,32 @@ func c02R6(p *core.Prog, r *core.Report) {
 	ex := core.NewExplorer(p, core.Hooks{
 		Track: func(x *core.X, a core.Atom) bool {
 			s := core.Plain(a.String())
-			return strings.Contains(s, self+".currentLock") || strings.Contains(s, self+".locks")
+			return strings.Contains(s, self+".currentLock") || strings.Contains(s, self+".locks") || strings.HasSuffix(core.Plain(a.L), ".scaleQueue")
+		},
+		// the index helper is explored inline, so that the rule sees the map deletion
+		// whether it is written in the helper or directly in RemoveLock
+		Inline: func(x *core.X, c *ssa.Function) bool {
+			return strings.HasSuffix(core.FuncName(c), "(*LockManagerLockQueue).RemoveLock")
+		},
+		Branch: func(x *core.X, a core.Atom) {
+			// no map-backed index exists on this path: nothing to delete
+			if strings.HasSuffix(core.Plain(a.L), ".scaleQueue") && a.Op == "==" && a.R == "nil" {
+				x.Set("noidx", "1")
+			}
 		},
 		Instr: func(x *core.X) {
+			if c, ok := x.Ins.(*ssa.Call); ok {
+				if bi, ok := c.Common().Value.(*ssa.Builtin); ok && bi.Name() == "delete" && len(c.Common().Args) == 2 {
+					if strings.HasSuffix(core.Plain(x.Canon(c.Common().Args[0]).S), ".scaleQueue.maps") {
+						k := core.Plain(x.Canon(c.Common().Args[1]).S)
+						if strings.HasSuffix(k, ".LockId") {
+							x.Set("idx:"+strings.TrimSuffix(k, ".LockId"), "1")
+						}
+					}
+				}
+			}
 			if !x.Top() {
 				return
-			}
-			if c := core.StaticCallee(x.Ins); c != nil && strings.HasSuffix(core.FuncName(c), "(*LockManagerLockQueue).RemoveLock") {
-				x.Set("idx:"+core.Plain(argCanon(x, x.Ins, 1)), "1")
 			}
 			if st, ok := x.Ins.(*ssa.Store); ok {
 				if k, ok := storeKey(st.Addr); ok && k == fk("server.LockManager", "currentLock") {
@@ -427,8 +445,8 @@ func c02R6(p *core.Prog, r *core.Report) {
 						return
 					}
 					key := siteKey(p, x.Ins)
-					if x.Get("idx:"+v+".command") == "1" {
-						r.Hold(rule, key, x.Pos(), "promoted hold deleted from the index first")
+					if x.Get("idx:"+v+".command") == "1" || x.Get("noidx") == "1" {
+						r.Hold(rule, key, x.Pos(), "promoted hold deleted from the index first (or no map-backed index exists)")
 					} else {
 						r.Violate(rule, key, x.Pos(), "hold "+v+" promoted to oldest holder without deleting it from the LockId index (a later unlock of that LockId would find the ended hold)", x.St.Trace)
 					}
@@ -441,8 +459,8 @@ func c02R6(p *core.Prog, r *core.Report) {
 				return
 			}
 			key := "server.(*LockManager).RemoveLock: release of a non-oldest hold"
-			if x.Get("idx:"+lk+".command") == "1" {
-				r.Hold(rule, key, x.Pos(), "released hold deleted from the index")
+			if x.Get("idx:"+lk+".command") == "1" || x.Get("noidx") == "1" {
+				r.Hold(rule, key, x.Pos(), "released hold deleted from the index (or no map-backed index exists)")
 			} else {
 				r.Violate(rule, key, x.Pos(), "released non-oldest hold stays in the LockId index", x.St.Trace)
 			}
